@@ -6,6 +6,7 @@ import e2e_engine as E2E
 import gen_mapper as GM
 import pipeline_check as PC
 import pipeline_engine as PE
+import genproof
 import vf
 
 SEC = 10**9
@@ -24,7 +25,10 @@ ALPHA = ["sA", "sB", "sAB", "adv1", "adv3", "sweep", "reload", "sA2"]
 DIRECTED = [("c4", ["sA", "reload", "sA2", "adv3", "sweep"]), ("c4", ["sA2", "reload", "sA", "adv3", "sweep"]),
             ("c3", ["sA", "reload", "sA2", "adv3", "sweep", "adv3", "sweep"]), ("c1", ["sA2", "reload", "reload", "reload", "sA", "adv3", "sweep"]),
             ("c4", ["sA", "sB", "reload", "sA2", "sB", "adv3", "sweep", "sA", "adv3", "sweep"]),
-            ("c2", ["sA", "reload", "reload", "sA2", "adv3", "adv3", "sweep", "adv3", "adv3", "sweep"])]
+            ("c2", ["sA", "reload", "reload", "sA2", "adv3", "adv3", "sweep", "adv3", "adv3", "sweep"]),
+            # a series created without a ttl receives one under a later configuration when it is already older than that ttl
+            ("c4", ["sA", "adv3", "reload", "sA", "sweep", "sA"]), ("c4", ["sB", "adv3", "adv3", "reload", "sB", "sweep", "sB"]),
+            ("c4", ["sA", "sA2", "adv3", "reload", "sA2", "sweep", "adv1", "sA", "sweep"]), ("c3", ["sA", "reload", "sA", "adv3", "reload", "sA", "sweep"])]
 
 
 def build(seq, rnd=None, start="c1"):
@@ -108,7 +112,7 @@ def monitor(rep, case, impl, model, payload):
         rep.nontrivial(tuple(meta["seq"]))
 
 
-def run(rep, tier, seed, replay):
+def _run(rep, tier, seed, replay):
     if replay and E2E.replay_case(rep, "C07", replay):
         rep.cov.setdefault("trusted_base", ["end-to-end replay of one case against the built binary"])
         rep.cov.setdefault("rule", "replay of one end-to-end case")
@@ -119,6 +123,8 @@ def run(rep, tier, seed, replay):
     n_exh = len(exhaustive)
     # Go map iteration order decides which series a sweep meets first: the directed histories run 8 times each
     exhaustive += [gen_case_from(seq, start=st0) for st0, seq in DIRECTED for _ in range(8)]
+    # ... and every history of depth <= 3 that starts without any ttl (c4) or with a default ttl only (c3)
+    exhaustive += [gen_case_from(seq, start=st0) for st0 in ("c4", "c3") for d in range(1, 4) for seq in itertools.product(ALPHA, repeat=d)]
 
     def gen(rnd):
         return gen_case_from([rnd.choice(ALPHA) for _ in range(rnd.randint(7, 40))], start=rnd.choice(["c1", "c4", "c3"]))
@@ -130,6 +136,19 @@ def run(rep, tier, seed, replay):
            "distinct by operation sequence" % (n_exh, depth), extra_cases=exhaustive)
     rep.cov["exhaustive"] = True
     if not replay:
+        # the exporter's own select loop with a backlog of event batches waiting when the sweep tick arrives
+        d = vf.tmpdir("C07")
+        ks = [0, 1, 2, 8, 64, 256, 256, 1000] if tier == "quick" else [0, 1, 2, 8, 64, 256, 1000] * 40
+        vf.write_lines(f"{d}/listenloop.cases", [str(k) for k in ks])
+        for k, o in zip(ks, vf.run_hx("listenloop", f"{d}/listenloop.cases")):
+            rep.count(1)
+            if o != "stale=0 busy=%d" % k:
+                rep.violation("a series whose ttl elapsed is still exposed after the sweep tick was taken (or backlog events were lost) when event batches were waiting",
+                              dict(backlog_batches=k, observed=o, expected="stale=0 busy=%d" % k,
+                                   how="harness/cmd/hx/listenloop.go: ttl 1s, one sample, clock +10 s, k batches pre-loaded into the buffered events channel, one tick on the mock ticker, Exporter.Listen, channel closed, Gather"))
+                break
+        rep.extra["listen_loop_backlog_runs"] = len(ks)
+    if not replay:
         import genproof
         genproof.mapper_atomicity(rep, "every sample is given the ttl configured at that moment, also while a reload is running")
     if not replay and len(rep.violations) < 5:
@@ -137,3 +156,9 @@ def run(rep, tier, seed, replay):
         E2E.run(rep, "C07", tier, seed, n_quick=8, n_thorough=96, gen=E2E.gen_ttl_case, key="e2e_ttl")
         rep.cov["rule"] += ("; plus %d real-time end-to-end histories against the built binary (ttl 3 s on a rule or in the defaults, a refreshing sample or none, scrapes at 0 s, "
                             "4.2 s and 7.2 s, with generous margins around the one-second sweep)" % rep.extra.get("e2e_ttl_cases", 0))
+
+
+def run(rep, tier, seed, replay):
+    _run(rep, tier, seed, replay)
+    if not replay:
+        genproof.clock_obligation(rep, "C07_clock.v", "time enters the registry / exporter loop other than as clock.Now and the sweep ticker of pkg/clock (the model's [now] and sweep op), or the wall clock is read without going through pkg/clock", ('pkg/registry.', 'pkg/exporter.', 'pkg/'))
